@@ -32,6 +32,28 @@ def ur_pre(self, registry_path, client_name, status_codes):
 def ur_inv(registry, all_codes, i):
     return values_prefix_in_set(registry, i, all_codes)
 
+@c.ensures(note="C11: the registry that is written back keeps every other client's entry and records this client's codes")
+def ur_written(self, registry_path, client_name, status_codes, old, result):
+    return (call_count("json.dump") == 1
+            and call_arg("json.dump", 0, 0) == dict_set(old_registry(), client_name, call_arg("json.dump", 0, 0)[client_name]))
+
+@c.ensures(note="C11 statement: the returned codes cover every code of every client registered so far — generating one client "
+                "never removes something another client needs")
+def ur_covers(self, registry_path, client_name, status_codes, old, result):
+    return call_count("json.dump") == 1 and forall_key_codes_in(call_arg("json.dump", 0, 0), result)
+
+
+# ---- _update_registry, second contract: exactness (kept apart so that its quantifier alternation does not slow down the refutation of the clauses above)
+c = contract(f"{E}:ExceptionsEmitter._update_registry#exact", props=["C11", "C06", "C09"], types={"registry_path": "str", "client_name": "str", "status_codes": "list"},
+             int_sets=["all_codes"], track_calls=True,
+             nothrow_calls=["os.path.exists", "open", "json.load", "json.dump"],
+             dependency_post={"json.load": _registry_shape})
+
+
+@c.requires
+def ur_pre_exact(self, registry_path, client_name, status_codes):
+    return is_int_list(status_codes)
+
 @c.invariant(0)
 def ur_inv_exact(registry, all_codes, i):
     return set_from_values_prefix(registry, i, all_codes)
@@ -44,16 +66,6 @@ def ur_exact(self, registry_path, client_name, status_codes, old, result):
 @c.ensures(note="this client's entry in the written registry is exactly its current status codes")
 def ur_own_entry(self, registry_path, client_name, status_codes, old, result):
     return call_count("json.dump") == 1 and set(call_arg("json.dump", 0, 0)[client_name]) == set(status_codes)
-
-@c.ensures(note="C11: the registry that is written back keeps every other client's entry and records this client's codes")
-def ur_written(self, registry_path, client_name, status_codes, old, result):
-    return (call_count("json.dump") == 1
-            and call_arg("json.dump", 0, 0) == dict_set(old_registry(), client_name, call_arg("json.dump", 0, 0)[client_name]))
-
-@c.ensures(note="C11 statement: the returned codes cover every code of every client registered so far — generating one client "
-                "never removes something another client needs")
-def ur_covers(self, registry_path, client_name, status_codes, old, result):
-    return call_count("json.dump") == 1 and forall_key_codes_in(call_arg("json.dump", 0, 0), result)
 
 
 # ---- _is_shared_core ------------------------------------------------------------------------------------------------
